@@ -633,6 +633,7 @@ def boost_redundant_implies(rng, case):
     store = case["store_struct"]
     k = rng.randrange(len(REDUNDANT_TABLES))
     store["criteria"] = {n: {"description": f"desc {n}", "implies": list(l)} for n, l in REDUNDANT_TABLES[k].items()}
+    case["expect_loaded"] = "the criteria table has no implication cycle (a criterion that is implied along two routes is not one)"
     top, last = [("crit-d", "crit-c"), ("crit-c", "crit-b")][k]
     dp, notes = _isolate_crate(rng, case, 4200)
     if dp is None:
@@ -765,6 +766,32 @@ def gen_expect_cases(rng, which):
                                  "peers_struct": {url: pf}, "registry": reg, "mode": "unlocked", "allow_criteria_changes": True,
                                  "expect": {"conflict": "tpaaa", "why": f"the peer serves a violation {viol['violation']} for {crit} and our audit of 2.0.0 "
                                             "claims safe-to-deploy (which implies safe-to-run)"}}))
+    if which == "unmapped-violation":
+        # a peer's violation for a criterion of its own that the import does not map (or maps to nothing) means nothing here: it
+        # conflicts with no audit and no exemption (C07)
+        for k in range(4):
+            pkgs, store = _tiny()
+            imp = {"url": [url]}
+            crit, ptable = ["peer-x"], {"peer-x": {"description": "the peer's own", "implies": []}}
+            if k == 1:
+                imp["criteria-map"] = {"peer-x": []}
+            if k == 2:
+                crit, ptable = ["safe-to-deploy"], {}
+                imp["criteria-map"] = {"safe-to-deploy": [], "safe-to-run": []}
+            store["imports"][peer] = imp
+            lock_viol = {"kind": "violation", "violation": "*", "criteria": [], "notes": "bad"}
+            store["lock"]["audits"][peer] = {"criteria": {}, "audits": ({"tpaaa": [lock_viol]} if k == 3 else {}), "wildcard_audits": {}}
+            if k % 2:
+                store["exemptions"]["tpaaa"] = [{"version": "2.0.0", "criteria": ["safe-to-deploy"], "suggest": True, "notes": "n"}]
+            else:
+                store["audits"]["tpaaa"] = [{"kind": "full", "version": "2.0.0", "criteria": ["safe-to-deploy"], "notes": "ours"}]
+            pf = {"criteria": ptable, "audits": {"tpaaa": [{"kind": "violation", "violation": "*", "criteria": crit, "notes": "bad"}]},
+                  "wildcard_audits": {}, "trusted": {}}
+            reg = {"users": [[1, "user1", "User 1"]], "packages": {"tpaaa": [{"version": "2.0.0", "by": 1, "when": "2022-06-15"}]}, "meta": {}}
+            out.append(finalize({"id": f"xu{k}", "kind": "resolve", "graph": {"packages": pkgs}, "store_struct": store,
+                                 "peers_struct": {url: pf}, "registry": reg, "mode": ["unlocked", "unlocked", "unlocked", "locked"][k],
+                                 "allow_criteria_changes": True,
+                                 "expect": {"passes": True, "why": f"the peer's violation names only {crit}, which this import maps to no local criterion"}}))
     if which == "wildcard-window-gap":
         # one import, two URLs, the same publisher's wildcard audit in each with DISJOINT windows; the version in use was published
         # in the gap: no entry covers it (C06)
@@ -818,6 +845,80 @@ def scenario_old_store_version(cid, k=0):
     cmds = [["check"], ["check", "--locked"], ["prune"], ["check", "--locked"]]
     return {"id": cid, "kind": "history", "graph": {"packages": pkgs}, "store_struct": store, "store": texts,
             "steps": [{"args": a, "remote": remote} for a in cmds]}
+
+
+def scenario_publisher_names_disagree(cid, k=0):
+    """deterministic history: imports.lock holds two publisher records of ONE crates.io user with the same login and different
+    display names, not in sorted order (a hand-resolved merge); a trusted entry carries that user-id, so audits.toml gets a
+    `# name (login)` remark.  Whatever remark is chosen, a second `fmt` changes nothing and `--locked` accepts the files."""
+    pkgs, store = _tiny()
+    recs = [{"version": "2.0.0", "when": "2022-06-15", "user-id": 1, "user-login": "alice", "user-name": "Alice Smith"},
+            {"version": "1.0.0", "when": "2022-01-01", "user-id": 1, "user-login": "alice", "user-name": "Alice"}]
+    if k % 2:
+        recs[1]["user-name"] = None
+    store["lock"]["publisher"]["tpaaa"] = recs
+    store["trusted"]["tpaaa"] = [{"user-id": 1, "start": "2022-01-01", "end": "2023-06-01", "criteria": ["safe-to-deploy"], "notes": "trusted"}]
+    registry = {"users": [[1, "alice", "Alice Smith"]], "packages": {"tpaaa": [{"version": "1.0.0", "by": 1, "when": "2022-01-01"},
+                                                                                 {"version": "2.0.0", "by": 1, "when": "2022-06-15"}]}, "meta": {}}
+    remote = render_remote({}, registry)
+    cmds = [["fmt"], ["fmt"], ["check", "--locked"], ["fmt"]]
+    return {"id": cid, "kind": "history", "strict": True, "graph": {"packages": pkgs}, "store_struct": store,
+            "store": render_store(store), "steps": [{"args": a, "remote": remote} for a in cmds]}
+
+
+def scenario_unpublished_moved_on(cid, k=0):
+    """deterministic history: a path crate audited as crates.io at an unpublished version; imports.lock still records it as
+    audited-as an OLD published version, but a newer one has been published since and only that one is audited.  The unlocked
+    check passes through the fresh link and must record it, so that `--locked` keeps passing."""
+    pkgs = [{"name": "wsaaa", "version": "1.0.0", "source": "path", "workspace": True,
+             "deps": [{"name": "fpxxx", "version": "4.0.0", "source": "path", "kinds": ["normal"]}]},
+            {"name": "fpxxx", "version": "4.0.0", "source": "path", "workspace": False, "deps": []}]
+    store = {"criteria": {}, "policy": {"fpxxx": {"audit-as-crates-io": True}}, "imports": {}, "exemptions": {},
+             "audits": {"fpxxx": [{"kind": "full", "version": "3.0.0", "criteria": ["safe-to-deploy"], "notes": "the newer release"}]},
+             "wildcard_audits": {}, "trusted": {},
+             "lock": {"audits": {}, "publisher": {}, "unpublished": {"fpxxx": [{"version": "4.0.0", "audited_as": ["2.0.0", "1.0.0"][k % 2]}]}}}
+    served = ["1.0.0", "2.0.0", "3.0.0"]
+    registry = {"users": [[1, "user1", "User 1"]], "packages": {"fpxxx": [{"version": x, "by": 1, "when": "2022-01-01"} for x in served]},
+                "meta": {"fpxxx": {"description": "whatever"}}}
+    remote = render_remote({}, registry)
+    cmds = [["check"], ["check", "--locked"], ["check"], ["check", "--locked"]]
+    return {"id": cid, "kind": "history", "graph": {"packages": pkgs}, "store_struct": store,
+            "store": render_store(store), "steps": [{"args": a, "remote": remote} for a in cmds]}
+
+
+def scenario_trusted_after_foreign_publisher(cid, k=0):
+    """deterministic history: the crate changed hands — imports.lock lists an older release by ANOTHER user before the release in
+    use, which the trusted publisher made; only the trusted entry certifies the crate.  `prune` must keep the record the path
+    needs: `--locked` passes afterwards."""
+    pkgs, store = _tiny()
+    store["lock"]["publisher"]["tpaaa"] = [
+        {"version": "1.0.0", "when": "2022-01-01", "user-id": 2, "user-login": "user2", "user-name": "User 2"},
+        {"version": "2.0.0", "when": ["2022-06-15", "2022-01-02"][k % 2], "user-id": 1, "user-login": "user1", "user-name": "User 1"}]
+    store["trusted"]["tpaaa"] = [{"user-id": 1, "start": "2022-01-02", "end": "2023-06-01", "criteria": ["safe-to-deploy"], "notes": "trusted"}]
+    registry = {"users": [[1, "user1", "User 1"], [2, "user2", "User 2"]],
+                "packages": {"tpaaa": [{"version": "1.0.0", "by": 2, "when": "2022-01-01"},
+                                       {"version": "2.0.0", "by": 1, "when": ["2022-06-15", "2022-01-02"][k % 2]}]}, "meta": {}}
+    remote = render_remote({}, registry)
+    cmds = [[["prune"], ["check", "--locked"], ["prune"]], [["regenerate", "imports"], ["check", "--locked"], ["check"]]][k % 2]
+    return {"id": cid, "kind": "history", "graph": {"packages": pkgs}, "store_struct": store,
+            "store": render_store(store), "steps": [{"args": a, "remote": remote} for a in cmds]}
+
+
+def boost_expired_wildcard_dangling(rng, case):
+    """fault-free validate case + a project's own wildcard audit whose window ended before today and which names a criterion
+    defined nowhere (a criterion removed from the table after the audit was written), with a publisher record inside the window:
+    an undefined criterion is refused wherever it stands"""
+    store = case["store_struct"]
+    crate = rng.choice(sorted({p["name"] for p in case["graph"]["packages"] if p["source"] == "registry"}) or ["tpaaa"])
+    v = next((p["version"] for p in case["graph"]["packages"] if p["name"] == crate), "1.0.0")
+    store["wildcard_audits"].setdefault(crate, []).append(
+        {"user-id": 1, "start": "2022-01-01", "end": rng.choice(["2022-06-15", "2022-12-31"]), "criteria": [rng.choice(["fault-gone", "safe-to-run"]), "fault-gone"][:rng.choice([1, 2])] + ([] if rng.random() < 0.5 else ["safe-to-deploy"]),
+         "notes": "expired"})
+    if "fault-gone" not in store["wildcard_audits"][crate][-1]["criteria"]:
+        store["wildcard_audits"][crate][-1]["criteria"].append("fault-gone")
+    store["lock"]["publisher"].setdefault(crate, []).append({"version": v, "when": "2022-06-15", "user-id": 1, "user-login": "user1", "user-name": "User 1"})
+    case["faults"] = list(case.get("faults", [])) + [{"kind": "dangling", "site": "SWildcard"}]
+    return finalize(case)
 
 
 def boost_exemptions(rng, case):
